@@ -50,6 +50,7 @@ namespace sim
   GenWorld gen_slab_world(Rng &rng);
   GenWorld gen_surface_world(Rng &rng);
   GenWorld gen_random_world(Rng &rng);
+  GenWorld gen_refusing_world(Rng &rng);
   // Cartesian plate whose depth surface has a triangle edge along a round coordinate; fills the edge_* fields
   GenWorld gen_edge_world(Rng &rng, WorldInfo &info);
 
